@@ -377,5 +377,13 @@ func cmdSrcgen(repo, outdir string) error {
 	for _, m := range missing {
 		fmt.Fprintf(&c, "(* MISSING: %s — expected source shape not found *)\n", m)
 	}
-	return writeIfChanged(filepath.Join(outdir, "Consts.v"), c.Bytes())
+	if err := writeIfChanged(filepath.Join(outdir, "Consts.v"), c.Bytes()); err != nil {
+		return err
+	}
+	// translation of unifiedMachine into the syntax of Model/S2Ast.v
+	s2, err := translateStage2(repo, consts)
+	if err != nil {
+		return err
+	}
+	return writeIfChanged(filepath.Join(outdir, "S2Prog.v"), s2)
 }
